@@ -165,6 +165,54 @@ def read_via_file(stog, info, d, cfg=None):
         shutil.rmtree(tmp, ignore_errors=True)
 
 
+def read_all_route(pystog, cfg, datasets):
+    """the same datasets handed over as the instance's file list and read in one go by read_all_data (text files, raw abscissae in
+    full precision, default column order; the instance's settings forwarded as keywords the way a driver script does); returns the two
+    storage arrays"""
+    import os
+    import shutil
+    import tempfile
+
+    import common as C
+    os.makedirs(C.SCRATCH, exist_ok=True)
+    tmp = tempfile.mkdtemp(prefix="all_", dir=C.SCRATCH)
+    try:
+        entries = []
+        # one column layout for all files of the call: named columns when every bank has (or every bank lacks) an uncertainty column
+        has_dy = [d["dy"] is not None for d in datasets]
+        layout, rkw = "default", {}
+        if sum(len(d["x"]) for d in datasets) % 2 == 0:
+            if all(has_dy):
+                layout, rkw = "dy junk x y", {"xcol": 2, "ycol": 3, "dycol": 0}
+            elif not any(has_dy):
+                layout, rkw = "junk y x", {"xcol": 2, "ycol": 1, "dycol": 5}
+        for j, d in enumerate(datasets):
+            info = info_of(d)
+            data = info.pop("data")
+            junk = np.arange(data.shape[1], dtype=float) + 7.0
+            cols = {"default": list(data), "dy junk x y": [data[-1], junk, data[0], data[1]], "junk y x": [junk, data[1], data[0]]}[layout]
+            name = os.path.join(tmp, "bank%d.dat" % j)
+            with open(name, "w") as fh:
+                fh.write("%d\n# written by the harness\n" % data.shape[1])
+                for row in zip(*cols):
+                    fh.write(" ".join(repr(float(v)) for v in row) + "\n")
+            info["Filename"] = name
+            entries.append(info)
+        kw = stog_kwargs(cfg)
+        if len(datasets) % 2:
+            stog = pystog.StoG(**dict(kw, Files=entries))
+        else:
+            stog = pystog.StoG(**kw)
+            stog.files = []
+            for e in entries[:-1]:
+                stog.append_file(e)
+            stog.extend_file_list(entries[-1:])
+        stog.read_all_data(**rkw)
+        return snap(stog)
+    finally:
+        shutil.rmtree(tmp, ignore_errors=True)
+
+
 def snap(stog):
     r = np.asarray(stog.reciprocal_individuals, float)
     s = np.asarray(stog.sq_individuals, float)
